@@ -32,14 +32,20 @@ def gen_case(rng, cid, nev):
         fails = [rng.choice([x for x in KEYS if x != k])] if rng.random() < 0.25 else []
         if r < 0.4:
             v += 1
-            evs.append(dict(op="set", k=k, v=v, age_ms=age, fails=fails))
+            # a Set stamps the entry with the current time (the count prune it may start runs concurrently, so its last-use
+            # time is not scripted); a scripted age is given by a following Get
+            evs.append(dict(op="set", k=k, v=v, age_ms=0, fails=fails))
+            if rng.random() < 0.7:
+                evs.append(dict(op="get", k=k, age_ms=age))
         elif r < 0.55:
             evs.append(dict(op="get", k=k, age_ms=age))
         elif r < 0.68:
             evs.append(dict(op="delete", k=k, ok=rng.random() < 0.75))
         elif r < 0.76:
             v += 1
-            evs.append(dict(op="delete_set", k=k, v=v, age_ms=age, ok=rng.random() < 0.8, fails=fails))
+            evs.append(dict(op="delete_set", k=k, v=v, age_ms=0, ok=rng.random() < 0.8, fails=fails))
+            if rng.random() < 0.7:
+                evs.append(dict(op="get", k=k, age_ms=age))
         elif r < 0.80:
             evs.append(dict(op="delete_all", fails=[x for x in KEYS if rng.random() < 0.2]))
         elif r < 0.88:
@@ -52,10 +58,11 @@ def gen_case(rng, cid, nev):
 def s_case(c):
     evs = []
     for i, e in enumerate(c["events"]):
-        t = i + 1          # model clock of the event: later events are later (refreshes by failed cleanups are ordered)
+        t = 2 * (i + 1) + 1     # model clock of the event's prune: later events are later, and the prune a Set starts runs after the Set (ts)
+        ts = 2 * (i + 1)
         f = sl(*[sx(x) for x in e.get("fails", [])])
         if e["op"] == "set":
-            evs.append(sl("set", sx(e["k"]), str(e["v"]), str(-e["age_ms"]), str(t), f))
+            evs.append(sl("set", sx(e["k"]), str(e["v"]), str(-e["age_ms"] if e["age_ms"] else ts), str(t), f))
         elif e["op"] == "get":
             evs.append(sl("get", sx(e["k"]), str(-e["age_ms"])))
         elif e["op"] == "delete":
@@ -64,7 +71,7 @@ def s_case(c):
             if not e["ok"]:
                 # the cleanup of this key fails during the whole event, also in the count prune the Set may start
                 f = sl(*[sx(x) for x in e.get("fails", []) + [e["k"]]])
-            evs.append(sl("delete_set", sx(e["k"]), str(e["v"]), str(-e["age_ms"]), str(t), "true" if e["ok"] else "false", f))
+            evs.append(sl("delete_set", sx(e["k"]), str(e["v"]), str(-e["age_ms"] if e["age_ms"] else ts), str(t), "true" if e["ok"] else "false", f))
         elif e["op"] == "delete_all":
             evs.append(sl("delete_all", f))
         elif e["op"] == "prune_age":
@@ -93,13 +100,15 @@ def oracle(ctx, case, out):
         if op in ("set", "delete_set"):
             pass
         # bookkeeping of values
+        clock = 2 * (k + 1)
+        rec = lambda age: (-age if age else clock)      # recency: larger = more recently used ("now" of a later event is later)
         if op == "set":
-            cur[ev["k"]] = (ev["v"], ev["age_ms"])
+            cur[ev["k"]] = (ev["v"], ev["age_ms"], rec(ev["age_ms"]))
         elif op == "get" and ev["k"] in cur and r["val"] is not None:
-            cur[ev["k"]] = (cur[ev["k"]][0], ev["age_ms"])
+            cur[ev["k"]] = (cur[ev["k"]][0], ev["age_ms"], rec(ev["age_ms"]))
         elif op == "delete_set":
             had = ev["k"] in cur
-            cur[ev["k"]] = (ev["v"], ev["age_ms"])
+            cur[ev["k"]] = (ev["v"], ev["age_ms"], rec(ev["age_ms"]))
             if hasfn and had and ev["k"] not in keys_after:
                 ctx.violation("a value stored while Delete's cleanup of the old value ran was removed without its own cleanup", rep(), "C20:replaced-entry-dropped")
         # removed entries: every one needs a successful cleanup of its current value first
@@ -114,12 +123,12 @@ def oracle(ctx, case, out):
             if x not in keys_after:
                 ctx.violation("entry %s was removed although its cleanup reported an error" % x, rep(), "C20:error-not-kept")
             elif x in cur and op in ("prune_age", "prune_count", "set", "delete_set") and val == cur[x][0]:
-                cur[x] = (cur[x][0], 0)          # refreshed: last use is now
+                cur[x] = (cur[x][0], 0, clock + 1)          # refreshed: last use is now
         extra = keys_after - set(cur)
         if extra:
             ctx.violation("keys %s present but never stored" % sorted(extra), rep(), "C20:ghost")
         if op == "prune_age":
-            for x, (val, age) in before.items():
+            for x, (val, age, _) in before.items():
                 if minage > 0 and age is not None and age < minage and x not in keys_after:
                     ctx.violation("entry %s used %d ms ago expired with an age limit of %d ms" % (x, age, minage), rep(), "C20:early-expiry")
                 if minage > 0 and age is not None and age > minage + MIN and x in keys_after and (x, val) not in failcalls:
@@ -128,10 +137,13 @@ def oracle(ctx, case, out):
             # least recently used first: every removed entry is older than every surviving one that did not fail
             rem = [x for x in before if x not in keys_after and x != ev.get("k")]
             kept = [x for x in before if x in keys_after and not any(c["k"] == x and not c["ok"] for c in calls)]
+            used = dict(before)
+            if op in ("set", "delete_set") and ev["k"] in cur:
+                used[ev["k"]] = cur[ev["k"]]          # the entry the event itself stored is the most recently used one
             for x in rem:
                 for y in kept:
-                    if before[x][1] is not None and before[y][1] is not None and before[x][1] < before[y][1]:
-                        ctx.violation("count prune removed %s (used %d ms ago) but kept %s (used %d ms ago)" % (x, before[x][1], y, before[y][1]), rep(), "C20:not-lru")
+                    if used[x][2] > used[y][2]:
+                        ctx.violation("count prune removed %s (recency %d) but kept %s (recency %d; larger = used more recently)" % (x, used[x][2], y, used[y][2]), rep(), "C20:not-lru")
             if not failcalls and count > 0 and op == "prune_count" and len(keys_after) > max(count, minc):
                 ctx.violation("%d entries after the count prune with limit %d" % (len(keys_after), count), rep(), "C20:bound")
             if not failcalls and count > 0 and op != "prune_count" and len(keys_after) > count:
